@@ -137,8 +137,10 @@ def check_expected(case, viol, res, shape, specs, fmt, thr, exact):
                      'expected': [list(map(float, e[:6])) + [e[6]] for e in exp]})
 
 
-def gen_case(rng):
+def gen_case(rng, force_choice=None, force_each=None):
     dims = rng.sample([4, 8, 16, 2], 3) if rng.random() < 0.6 else rng.sample([4, 6, 8, 10, 12, 16], 3)
+    if force_choice is not None:
+        dims = rng.sample([6, 10, 12, 16], 3)      # pairwise different extents: an axis confusion shows
     H, W, D = dims
     boxes = []
     for i in range(rng.randint(1, 4)):
@@ -164,12 +166,18 @@ def gen_case(rng):
     thr = {'min_planar_area': 0.0, 'min_volume': 0.0, 'min_area_visibility': 0.0, 'min_volume_visibility': 0.0,
            'min_width': 0.0, 'min_height': 0.0, 'min_depth': 0.0}
     # boundary-equal thresholds: taken from the clipped remainder of one of the boxes
-    b = rng.choice(boxes)
+    def clipped(bb):
+        return (max(0.0, min(bb[3], win['x_max']) - max(bb[0], win['x_min'])), max(0.0, min(bb[4], win['y_max']) - max(bb[1], win['y_min'])),
+                max(0.0, min(bb[5], win['z_max']) - max(bb[2], win['z_min'])))
+    inside = [bb for bb in boxes if min(clipped(bb)) >= 1.0]
+    b = rng.choice(inside if (inside and force_choice is not None) else boxes)
     cw = max(0.0, min(b[3], win['x_max']) - max(b[0], win['x_min']))
     chh = max(0.0, min(b[4], win['y_max']) - max(b[1], win['y_min']))
     cd = max(0.0, min(b[5], win['z_max']) - max(b[2], win['z_min']))
     choice = rng.choice(['none', 'width', 'height', 'depth', 'area', 'volume', 'avis', 'vvis', 'above',
                          'mid-width', 'mid-height', 'mid-depth', 'all-three', 'all-three'])
+    if force_choice is not None:
+        choice = force_choice
     # thresholds strictly between the extents that occur (well-conditioned on every frame), one axis at a time and
     # all three axes with different values: a threshold applied to the wrong axis then changes the outcome
     off = rng.choice([-0.37, 0.37])
@@ -199,7 +207,41 @@ def gen_case(rng):
     elif choice == 'above':
         thr['min_width'] = cw + 0.5
     return {'shape': [H, W, D], 'bboxes': boxes, 'pipeline': specs, 'format': rng.choice(FORMATS),
-            'thresholds': thr, 'each': rng.random() < 0.5, 'seed': R.pick_seed(rng)}
+            'thresholds': thr, 'each': (rng.random() < 0.5) if force_each is None else force_each, 'seed': R.pick_seed(rng)}
+
+
+def gen_forced(rng, choice, each):
+    """sizeable boxes in a frame with pairwise different extents, a gentle crop (most of every box survives), and a
+    size threshold strictly between extents that occur: a threshold applied to the wrong axis, or an extent measured
+    in the wrong frame, changes which boxes come back"""
+    H, W, D = rng.sample([8, 12, 16, 20], 3)
+    boxes = []
+    for i in range(4):
+        ex = [rng.randint(3, 7) for _ in range(3)]
+        x1, y1, z1 = rng.randint(0, W - ex[0]), rng.randint(0, H - ex[1]), rng.randint(0, D - ex[2])
+        boxes.append((float(x1), float(y1), float(z1), float(x1 + ex[0]), float(y1 + ex[1]), float(z1 + ex[2]), 'b%d' % i))
+    win = {'x_min': rng.randint(0, 2), 'y_min': rng.randint(0, 2), 'z_min': rng.randint(0, 2),
+           'x_max': W - rng.randint(0, 2), 'y_max': H - rng.randint(0, 2), 'z_max': D - rng.randint(0, 2)}
+    specs = [S.L('Crop', **win)]
+    if rng.random() < 0.4:
+        specs.append(rng.choice([S.L('HorizontalFlip'), S.L('SliceFlip'), S.L('NoOp')]))
+    thr = {'min_planar_area': 0.0, 'min_volume': 0.0, 'min_area_visibility': 0.0, 'min_volume_visibility': 0.0,
+           'min_width': 0.0, 'min_height': 0.0, 'min_depth': 0.0}
+
+    def clip(bb, lo, hi, a):
+        return max(0.0, min(bb[a + 3], hi) - max(bb[a], lo))
+    ws = sorted(clip(b, win['x_min'], win['x_max'], 0) for b in boxes)
+    hs = sorted(clip(b, win['y_min'], win['y_max'], 1) for b in boxes)
+    ds = sorted(clip(b, win['z_min'], win['z_max'], 2) for b in boxes)
+    mid = lambda v: (v[1] + v[2]) / 2.0 + 0.13          # between the second and third smallest extent
+    if choice in ('mid-width', 'all-three'):
+        thr['min_width'] = mid(ws)
+    if choice in ('mid-height', 'all-three'):
+        thr['min_height'] = mid(hs)
+    if choice in ('mid-depth', 'all-three'):
+        thr['min_depth'] = mid(ds)
+    return {'shape': [H, W, D], 'bboxes': boxes, 'pipeline': specs, 'format': rng.choice(FORMATS),
+            'thresholds': thr, 'each': each, 'seed': R.pick_seed(rng)}
 
 
 def run(seed=0, tier='quick', hints=None, broken=False):
@@ -208,8 +250,10 @@ def run(seed=0, tier='quick', hints=None, broken=False):
     if broken:
         n *= 3
     viol, seen = [], set()
-    for _ in range(n):
-        case = gen_case(rng)
+    # every kind of well-conditioned size threshold under both filtering schedules, a few times each
+    forced = [(c, e) for c in ('mid-width', 'mid-height', 'mid-depth', 'all-three') for e in (True, False)] * (6 if tier == 'quick' else 30)
+    for i in range(n + len(forced)):
+        case = gen_case(rng) if i < n else gen_forced(rng, *forced[i - n])
         check(case, viol)
         seen.add((tuple(case['shape']), case['format'], case['each'], tuple(sorted(case['thresholds'].items())),
                   tuple(s['cls'] for s in case['pipeline'])))
